@@ -66,6 +66,23 @@ class Driver(concdrv.ConcMixin):
                         pass
                     vconn.settle(rt, 1)
                 continue
+            if op[0] == 'dirty':
+                # the channel gets a consumer and a returned message whose error nobody has
+                # looked at yet: close() then meets trouble while cancelling.  Not an operation
+                # of the model either: numbers are handed out and taken back as before
+                from pamqp import specification as spec
+                from pamqp.header import ContentHeader
+                ch = conn._channels.get(op[1])
+                if ch is not None and ch.is_open:
+                    try:
+                        ch.basic.consume(lambda m: None, 'q')
+                        br.send(op[1], spec.Basic.Return(reply_code=312, reply_text='NO_ROUTE',
+                                                         exchange='', routing_key='k'))
+                        br.send(op[1], ContentHeader(body_size=0, properties=spec.Basic.Properties()))
+                    except Exception:
+                        pass
+                    vconn.settle(rt, 2)
+                continue
             try:
                 if op[0] == 'open':
                     ch = conn.channel(rpc_timeout=2)
@@ -115,7 +132,7 @@ class Driver(concdrv.ConcMixin):
     def make_case(self, mx, ops):
         ops = [tuple(o) for o in ops]
         obs = self.run_ops(mx, ops)
-        cin = '(%s, %s)' % (coq_nat(mx), coq_list([op_coq(o) for o in ops if o[0] != 'badclose']))
+        cin = '(%s, %s)' % (coq_nat(mx), coq_list([op_coq(o) for o in ops if o[0] not in ('badclose', 'dirty')]))
         return dict(cin=cin, cobs=coq_list(obs), meta=dict(max=mx, ops=ops))
 
     def corpus_cases(self):
@@ -153,7 +170,15 @@ class Driver(concdrv.ConcMixin):
             seq = list(rnd.choices(alpha, weights=w, k=n))
             if rnd.random() < 0.3:
                 seq.insert(rnd.randrange(1, len(seq) + 1), ('badclose', rnd.randrange(1, mx + 1)))
+            if rnd.random() < 0.3:
+                # ... directly before an application close of that channel
+                closes = [i for i, o in enumerate(seq) if o[0] == 'aclose']
+                if closes:
+                    i = rnd.choice(closes)
+                    seq.insert(i, ('dirty', seq[i][1]))
             out.append((mx, tuple(seq)))
+        for mx in (1, 2, 3):
+            out.append((mx, (('open',), ('dirty', 1), ('aclose', 1), ('open',), ('open',))))
         return [self.make_case(mx, ops) for mx, ops in out] + self.conc_cases(tier, seed)
 
     def replay_cases(self, doc):
